@@ -77,7 +77,7 @@ class Ctx:
         os.makedirs(os.path.join(env.VERIF, 'replay'), exist_ok=True)
         h = hashlib.sha1((signature + canon(replay)).encode()).hexdigest()[:10]
         path = os.path.join(env.VERIF, 'replay', f'{self.prop}-{h}.json')
-        doc = dict(property=self.prop, signature=signature, what=what, found_input=found_input, seed=self.seed,
+        doc = dict(property=self.prop, signature=signature, what=what, found_input=found_input, seed=self.seed, tier=self.tier,
                    replay_cmd=f'./check {self.prop} --replay {path}')
         for k, v in replay.items():
             doc[k if k not in doc else 'case_' + k] = v
@@ -123,3 +123,20 @@ class Ctx:
               f'{cov.get("discharged", 0)} violations={len(self.violations)} known={len(self.known_hits)} '
               f'wall={ev["wall_s"]}s', flush=True)
         return 1 if self.violations else 0
+
+
+def replay_by_rerun(mod, ctx, data):
+    """Generic replay: regenerate the stream that produced the case (same seed, same tier) and report whether the
+    violation with the recorded signature occurs again on the tree under test."""
+    import random
+    ctx.seed = int(data.get('seed', 0))
+    ctx.rng = random.Random(ctx.seed)
+    ctx.tier = data.get('tier', ctx.tier)
+    mod.run(ctx)
+    again = [v for v in ctx.violations if v['signature'] == data['signature']]
+    known = [k for k in ctx.known_hits if k['signature'] == data['signature']]
+    for v in again:
+        print('reproduced:', v['what'][:400])
+    for k in known:
+        print('reproduced (recorded finding):', k['what'][:400])
+    return not again and not known
